@@ -4,6 +4,10 @@
 import XC.Model.C48
 namespace XC.C48
 
+def Res.status? : Res → Option Nat
+  | .ok f => some f.status
+  | _ => none
+
 /-- the envelope checks pass exactly when … -/
 theorem envelope_none_iff (f : Facts) (cert : Option Int) :
     envelopeErr f cert = none ↔
@@ -131,10 +135,13 @@ theorem embedded_must_sign (f : Facts) (cert : Option Int) (issuer : Bool) (fl :
 /-- non-vacuity of `issuer_binding`: both alternatives are reachable, and the unsigned case is rejected -/
 example : parseResponse { singles := [{ serial := 5 }], sigByIssuer := true } none true
     = .ok (fieldsOf { singles := [{ serial := 5 }], sigByIssuer := true } { serial := 5 }) := by decide
-example : (parseResponse { singles := [{ serial := 5 }], ncerts := 1, sigByEmbedded := true, embeddedByIssuer := true }
-    none true matches .ok _) = true := by decide
-example : parseResponse { singles := [{ serial := 5 }], ncerts := 1, sigByEmbedded := true } none true = .errParse := by
+example : (parseResponse { singles := [{ serial := 5 }], certs := [{ signedResp := true, byIssuer := true }] }
+    none true).status? = some revokedSt := by decide
+example : parseResponse { singles := [{ serial := 5 }], certs := [{ signedResp := true }] } none true = .errParse := by
   decide
+/-- two embedded certificates, the first signed the response but only the second is issuer-signed: rejected -/
+example : parseResponse { singles := [{ serial := 5 }], certs := [{ signedResp := true }, { byIssuer := true }] }
+    none true = .errParse := by decide
 example : parseResponse { singles := [{ serial := 5 }] } none true = .errParse := by decide
 
 /-- the SingleResponse used for a given certificate is the *first* one with its serial number -/
@@ -176,14 +183,56 @@ def expected (t : Template) (serial : Int) (alg : Nat) (producedAt : Int) : Fiel
 
 def effHash (t : Template) : Nat := if t.issuerHash = 0 then 3 else t.issuerHash
 
+/-! ### the OID tables are faithful -/
+
+/-- `hashOIDs` read forwards then backwards is the identity on the four supported hashes, and
+    `getHashAlgorithmFromOID` answers 0 exactly for OIDs outside the table -/
+theorem hash_table_roundtrip (h : Nat) (hk : hashKnown h = true) :
+    ∃ o, oidOfHash h = some o ∧ hashOfOid o = h := by
+  simp only [hashKnown, Bool.or_eq_true, beq_iff_eq] at hk
+  rcases hk with ((rfl | rfl) | rfl) | rfl <;> exact ⟨_, rfl, by decide⟩
+
+theorem hashOfOid_known (o : Oid) : hashOfOid o = 0 ∨ hashKnown (hashOfOid o) = true := by
+  unfold hashOfOid
+  repeat' split
+  all_goals simp [hashKnown]
+
+theorem hashOfOid_some (o : Oid) (h : hashOfOid o ≠ 0) : oidOfHash (hashOfOid o) = some o := by
+  unfold hashOfOid at *
+  repeat' split at h
+  all_goals simp_all [oidOfHash]
+
+theorem sigAlgDetails_range {a : Nat} {x : Nat × Nat} (h : sigAlgDetails a = some x) : 1 ≤ a ∧ a ≤ 12 := by
+  unfold sigAlgDetails at h
+  split at h <;> simp_all
+
+theorem signingParams_range {k : KeyType} {req alg : Nat} (h : signingParams k req = some alg) :
+    1 ≤ alg ∧ alg ≤ 12 := by
+  unfold signingParams at h
+  cases k <;> simp only [] at h <;> (try simp at h)
+  all_goals
+    split at h
+    · injection h with h; omega
+    · cases hd : sigAlgDetails req with
+      | none => simp [hd] at h
+      | some x =>
+        obtain ⟨pk, hh⟩ := x
+        simp only [hd] at h
+        have hr := sigAlgDetails_range hd
+        split at h <;> simp at h
+        omega
+
+/-- `signatureAlgorithmDetails` read forwards then backwards is the identity on algorithms 1 … 12 -/
+theorem sig_table_roundtrip : ∀ a, a < 13 → 1 ≤ a → sigAlgOfOid (oidOfSigAlg a) = a := by decide
+
 /-- what a successful `CreateResponse` wrote -/
 theorem createResponse_some (t : Template) (k : Nat) (typ : KeyType) (r : AbsResp)
     (hc : createResponse t k typ = some r) :
     ∃ serial alg, t.serial = some serial ∧ signingParams typ t.sigAlg = some alg ∧
       hashKnown (effHash t) = true ∧
       r = { single := { serial := serial, good := t.status = 0, unknown := t.status = 2,
-                        crit := t.exts.any id, hash := effHash t, thisUpdate := t.thisUpdate,
-                        nextUpdate := t.nextUpdate,
+                        crit := t.exts.any id, hashOid := (oidOfHash (effHash t)).getD [],
+                        thisUpdate := t.thisUpdate, nextUpdate := t.nextUpdate,
                         revokedAt := if t.status = 1 then t.revokedAt else zeroTime,
                         reason := if t.status = 1 then t.reason else 0, nExt := t.exts.length },
             sigAlg := alg, signer := k, certs := t.cert.toList } := by
@@ -205,14 +254,11 @@ theorem createResponse_some (t : Template) (k : Nat) (typ : KeyType) (r : AbsRes
         simp only [hsp, Option.some.injEq] at hc
         exact ⟨serial, alg, rfl, rfl, hk, hc.symm⟩
 
-theorem effHash_ne_zero (t : Template) (h : hashKnown (effHash t) = true) : effHash t ≠ 0 := by
-  intro e; rw [e] at h; simp [hashKnown] at h
-
 /-- **create_parse_fields.** Over a faithful codec, a response created from `t` with key `k`, carrying no
     critical extension, and checked against an issuer for which the signature rule can hold (signed by
     the issuer itself, or `template.Certificate` holds the signing key and is signed by the issuer),
     parses to exactly the template's fields (status normalised into {Good, Revoked, Unknown};
-    revocation time / reason only for Revoked). -/
+    revocation time / reason only for Revoked; hash and signature algorithm through the OID tables). -/
 theorem create_parse_fields (t : Template) (k : Nat) (typ : KeyType) (r : AbsResp) (pa : Int)
     (issuer : Option Nat) (hc : createResponse t k typ = some r) (hcrit : t.exts.any id = false)
     (hsig : match t.cert, issuer with
@@ -222,42 +268,41 @@ theorem create_parse_fields (t : Template) (k : Nat) (typ : KeyType) (r : AbsRes
       | some c, some i => c.key = k ∧ c.signedBy = i ∧ verifies r.sigAlg = true) :
     ∃ serial, t.serial = some serial ∧
       parseResponse (factsOf r pa issuer) none issuer.isSome = .ok (expected t serial r.sigAlg pa) := by
-  obtain ⟨serial, alg, hser, _, hk, rfl⟩ := createResponse_some t k typ r hc
-  have hne := effHash_ne_zero t hk
-  have hne' : ¬ (if t.issuerHash = 0 then 3 else t.issuerHash) = 0 := hne
+  obtain ⟨serial, alg, hser, hsp, hk, rfl⟩ := createResponse_some t k typ r hc
+  obtain ⟨o, ho, hho⟩ := hash_table_roundtrip _ hk
+  have hrange := signingParams_range hsp
+  have halg := sig_table_roundtrip alg (by omega) hrange.1
+  have hne : effHash t ≠ 0 := by intro e; rw [e] at hk; simp [hashKnown] at hk
   refine ⟨serial, hser, ?_⟩
   rw [accept_iff]
-  cases hcert : t.cert with
-  | none =>
-    cases issuer with
+  refine ⟨by simp [factsOf], _, rfl, Or.inl rfl, rfl, ?_, ?_, ?_, ?_, ?_⟩
+  · -- an embedded certificate parses
+    intro _; simp [Facts.certOk, factsOf]; cases t.cert <;> simp
+  · -- signature rule
+    cases hcert : t.cert with
     | none =>
-      refine ⟨by simp [factsOf], _, rfl, ?_⟩
-      simp [factsOf, sigRule, hcert, hcrit, hne, fieldsOf, expected, statusOf, goodSt, unknownSt, revokedSt, effHash]
-      by_cases h0 : t.status = 0 <;> by_cases h2 : t.status = 2 <;> by_cases h1 : t.status = 1 <;>
-        simp [h0, h1, h2] <;> first | omega | exact hne'
-    | some i =>
-      simp only [hcert] at hsig
-      obtain ⟨rfl, hv⟩ := hsig
-      refine ⟨by simp [factsOf], _, rfl, ?_⟩
-      simp [factsOf, sigRule, hcert, hcrit, hne, fieldsOf, expected, statusOf, goodSt, unknownSt, revokedSt, effHash, hv]
-      by_cases h0 : t.status = 0 <;> by_cases h2 : t.status = 2 <;> by_cases h1 : t.status = 1 <;>
-        simp [h0, h1, h2] <;> first | omega | exact hne'
-  | some c =>
-    cases issuer with
-    | none =>
-      simp only [hcert] at hsig
-      obtain ⟨rfl, hv⟩ := hsig
-      refine ⟨by simp [factsOf], _, rfl, ?_⟩
-      simp [factsOf, sigRule, hcert, hcrit, hne, fieldsOf, expected, statusOf, goodSt, unknownSt, revokedSt, effHash, hv]
-      by_cases h0 : t.status = 0 <;> by_cases h2 : t.status = 2 <;> by_cases h1 : t.status = 1 <;>
-        simp [h0, h1, h2] <;> first | omega | exact hne'
-    | some i =>
-      simp only [hcert] at hsig
-      obtain ⟨rfl, rfl, hv⟩ := hsig
-      refine ⟨by simp [factsOf], _, rfl, ?_⟩
-      simp [factsOf, sigRule, hcert, hcrit, hne, fieldsOf, expected, statusOf, goodSt, unknownSt, revokedSt, effHash, hv]
-      by_cases h0 : t.status = 0 <;> by_cases h2 : t.status = 2 <;> by_cases h1 : t.status = 1 <;>
-        simp [h0, h1, h2] <;> first | omega | exact hne'
+      cases issuer with
+      | none => simp [sigRule, Facts.ncerts, factsOf, hcert]
+      | some i =>
+        simp only [hcert] at hsig
+        simp [sigRule, Facts.ncerts, factsOf, hcert, hsig.1, hsig.2]
+    | some c =>
+      cases issuer with
+      | none =>
+        simp only [hcert] at hsig
+        simp [sigRule, Facts.ncerts, Facts.sigByEmbedded, factsOf, hcert, hsig.1, hsig.2]
+      | some i =>
+        simp only [hcert] at hsig
+        simp [sigRule, Facts.ncerts, Facts.sigByEmbedded, Facts.embeddedByIssuer, factsOf, hcert, hsig.1, hsig.2.1,
+          hsig.2.2]
+  · exact hcrit
+  · simp [Single.hash, ho, hho, hne]
+  · -- the fields
+    simp only [fieldsOf, expected, statusOf, factsOf, Single.hash, Facts.sigAlg, Facts.ncerts, ho, Option.getD_some,
+      hho, halg, goodSt, unknownSt, revokedSt, effHash] at *
+    cases t.cert <;>
+    by_cases h0 : t.status = 0 <;> by_cases h2 : t.status = 2 <;> by_cases h1 : t.status = 1 <;>
+      simp [h0, h1, h2] <;> omega
 
 /-- a response signed by `k` with no certificate inside is rejected under any other issuer -/
 theorem create_parse_wrong_issuer (t : Template) (k i : Nat) (typ : KeyType) (r : AbsResp) (pa : Int)
@@ -267,11 +312,7 @@ theorem create_parse_wrong_issuer (t : Template) (k i : Nat) (typ : KeyType) (r 
   intro h
   rcases issuer_binding _ _ _ h with ⟨_, h2⟩ | ⟨h1, _⟩
   · simp [factsOf, hki] at h2
-  · simp [factsOf, hcert] at h1
-
-def Res.status? : Res → Option Nat
-  | .ok f => some f.status
-  | _ => none
+  · simp [factsOf, Facts.ncerts, hcert] at h1
 
 /-- the round trip needs `Status ∈ {Good, Revoked, Unknown}`: `ServerFailed` (3) reads back as Revoked -/
 example : (createResponse ⟨3, some 7, 0, 0, 0, 0, 0, 0, [], none⟩ 1 .rsa).map
@@ -295,14 +336,18 @@ theorem request_roundtrip (optHash : Nat) (serial : Int) (hn hk : Nat → Bytes)
              hk (if optHash = 0 then 3 else optHash), serial⟩) := by
   unfold createRequest
   by_cases h : hashKnown (if optHash = 0 then 3 else optHash) = true
-  · simp [h, parseRequest]
+  · obtain ⟨o, ho, hho⟩ := hash_table_roundtrip _ h
+    have hne : (if optHash = 0 then 3 else optHash) ≠ 0 := by
+      intro e; rw [e] at h; simp [hashKnown] at h
+    simp only [h, Bool.not_true, Bool.false_eq_true, if_false, parseRequest, ho, Option.getD_some, hho]
+    simp [hne]
   · have h' : hashKnown (if optHash = 0 then 3 else optHash) = false := by simpa using h
     simp [h']
 
-/-- `ParseRequest` accepts exactly: parses, nothing trailing, unsigned, ≥ 1 request, known hash -/
+/-- `ParseRequest` accepts exactly: parses, nothing trailing, unsigned, ≥ 1 request, hash OID in `hashOIDs` -/
 theorem parseRequest_accept_iff (f : ReqFacts) :
     (∃ r, parseRequest f = .ok r) ↔
-      (f.ok = true ∧ f.rest = false ∧ f.hasSig = false ∧ f.n ≠ 0 ∧ hashKnown f.hash = true) := by
+      (f.ok = true ∧ f.rest = false ∧ f.hasSig = false ∧ f.n ≠ 0 ∧ hashOfOid f.hashOid ≠ 0) := by
   unfold parseRequest
   constructor
   · intro ⟨r, h⟩
@@ -312,9 +357,62 @@ theorem parseRequest_accept_iff (f : ReqFacts) :
     split at h; · simp at h
     split at h; · simp at h
     rename_i h1 h2 h3 h4 h5
-    simp at h1 h2 h3 h4 h5
+    simp at h1 h2 h3 h4
     exact ⟨h1, h2, h3, h4, h5⟩
   · intro ⟨h1, h2, h3, h4, h5⟩
     simp [h1, h2, h3, h4, h5]
+
+/-! ## the embedded chain and `CheckSignatureFrom` -/
+
+/-- **embedded_same_cert.** When a response with embedded certificates is accepted under an issuer, the
+    certificate that was checked against the issuer is the very certificate (the first one) that
+    verified the response signature; later certificates play no role. -/
+theorem embedded_same_cert (f : Facts) (cert : Option Int) (fl : Fields)
+    (h : parseResponse f cert true = .ok fl) (hn : f.certs ≠ []) :
+    ∃ c rest, f.certs = c :: rest ∧ c.ok = true ∧ c.signedResp = true ∧ c.byIssuer = true := by
+  obtain ⟨_, s, _, _, _, hok, hs, _⟩ := (accept_iff f cert true fl).mp h
+  cases hc : f.certs with
+  | nil => exact absurd hc hn
+  | cons c rest =>
+    have hlen : f.ncerts > 0 := by simp [Facts.ncerts, hc]
+    have h1 := hok hlen
+    simp only [sigRule, hlen, if_true, Facts.sigByEmbedded, Facts.embeddedByIssuer, Facts.certOk, hc,
+      List.head?_cons, Bool.not_true, Bool.false_or, Bool.and_eq_true] at hs h1
+    exact ⟨c, rest, rfl, h1, hs.1, hs.2⟩
+
+/-- certificates after the first do not influence the result -/
+theorem later_certs_irrelevant (f : Facts) (c : CertFact) (r1 r2 : List CertFact) (cert : Option Int)
+    (issuer : Bool) :
+    parseResponse { f with certs := c :: r1 } cert issuer = parseResponse { f with certs := c :: r2 } cert issuer := by
+  have e1 : envelopeErr { f with certs := c :: r1 } cert = envelopeErr { f with certs := c :: r2 } cert := rfl
+  have e2 : ∀ s, checkSingle { f with certs := c :: r1 } s issuer = checkSingle { f with certs := c :: r2 } s issuer := by
+    intro s
+    simp [checkSingle, sigRule, Facts.ncerts, Facts.certOk, Facts.sigByEmbedded, Facts.embeddedByIssuer, fieldsOf,
+      Facts.sigAlg]
+  unfold parseResponse
+  rw [e1]
+  cases envelopeErr { f with certs := c :: r2 } cert with
+  | some e => rfl
+  | none =>
+    show (match select cert f.singles with | none => Res.errParse | some s => checkSingle _ s issuer) =
+         (match select cert f.singles with | none => Res.errParse | some s => checkSingle _ s issuer)
+    cases select cert f.singles with
+    | none => rfl
+    | some s => exact e2 s
+
+/-- **two-step use.** Parsing without an issuer and then calling `Response.CheckSignatureFrom(issuer)` on
+    a response that has no embedded certificate accepts exactly what the one-step call with the issuer
+    accepts, with the same fields. -/
+theorem parse_then_checkSignatureFrom (f : Facts) (cert : Option Int) (fl : Fields) (hn : f.certs = []) :
+    (parseResponse f cert false = .ok fl ∧ checkSignatureFrom f = true) ↔
+      parseResponse f cert true = .ok fl := by
+  have hnc : ¬ f.ncerts > 0 := by simp [Facts.ncerts, hn]
+  rw [accept_iff, accept_iff]
+  simp only [sigRule, hnc, if_false, checkSignatureFrom, Bool.not_false, Bool.not_true, Bool.true_or, Bool.false_or]
+  constructor
+  · rintro ⟨⟨he, s, h1, h2, h3, h4, _, h6⟩, hs⟩
+    exact ⟨he, s, h1, h2, h3, h4, hs, h6⟩
+  · rintro ⟨he, s, h1, h2, h3, h4, hs, h6⟩
+    exact ⟨⟨he, s, h1, h2, h3, h4, trivial, h6⟩, hs⟩
 
 end XC.C48
